@@ -11,7 +11,7 @@ CONSTANTS
   Savers = {"p", "c"}
   MaxSaves = 2
   MaxCrash = 0
-  MaxAcks = 2
+  MaxAcks = 1
   MaxGen = 1
   MaxNotify = 0
   MaxEnds = 0
